@@ -1267,6 +1267,9 @@ func (g *Gen) History() []E {
 	if (g.P.Name == "reads" || g.P.Name == "general") && g.P.Indexes && g.chance(0.35) {
 		evs = append(evs, g.lifecycleSweep()...)
 	}
+	if g.P.Name == "ids" && g.chance(0.5) {
+		evs = append(evs, g.idFormSweep()...)
+	}
 	if g.P.Name == "derived" && g.P.PrefixNames && len(g.colls) >= 3 && g.chance(0.5) {
 		// a collection is dropped whose name is a prefix of its siblings' names: every derived read on the siblings
 		// still agrees with FindAll (their documents, their counts and their ids are untouched)
@@ -1366,6 +1369,67 @@ func (g *Gen) mixedNumbersSweep() []E {
 		g.idx[c][f] = true
 		evs = append(evs, E{"op": "CreateIndex", "c": c, "f": B(f)})
 		reads()
+	}
+	return evs
+}
+
+// idFormSweep: one document under each spelling of a UUID that is a valid _id (canonical, upper case, braces, urn:,
+// bare hex), and every respelling of each of them by a point update and by a bulk update: the respelled id is
+// another id (the update fails and changes nothing), whatever the stored spelling has in common with it (the bare
+// UUID is a suffix of its urn: spelling, the canonical one a substring of the braced one).
+func (g *Gen) idFormSweep() []E {
+	var c string
+	for _, x := range g.colls {
+		if g.created[x] {
+			c = x
+			break
+		}
+	}
+	if c == "" {
+		return nil
+	}
+	var evs []E
+	var ids []string
+	for _, id := range altUuidPool {
+		if !g.live[c][id] {
+			ids = append(ids, id)
+		}
+	}
+	for _, id := range g.freeIds(c) {
+		if len(ids) >= 9 {
+			break
+		}
+		if len(id) == 36 {
+			ids = append(ids, id)
+		}
+	}
+	if len(ids) == 0 {
+		return nil
+	}
+	var docs []interface{}
+	for _, id := range ids {
+		docs = append(docs, AObj("_id", AStr(id), "x", g.smallNum()))
+		g.noteInsert(c, id)
+	}
+	evs = append(evs, E{"op": "Insert", "c": c, "docs": docs, "audit": true})
+	for _, id := range ids {
+		var kinds []string
+		switch {
+		case strings.HasPrefix(id, "urn:uuid:"), strings.HasPrefix(id, "{"):
+			kinds = []string{"bare", "upper"}
+		case len(id) == 36:
+			kinds = []string{"urn", "braces", "upper"}
+		default:
+			kinds = []string{"urn", "upper"}
+		}
+		kind := g.pick(kinds)
+		if g.chance(0.6) {
+			evs = append(evs, E{"op": "UpdateById", "c": c, "id": B(id), "upd": []interface{}{"idform", kind}, "audit": true})
+		} else {
+			evs = append(evs, E{"op": "UpdateFunc", "c": c, "q": []interface{}{[]interface{}{"where", []interface{}{"un", "eq", B("_id"), []interface{}{"lit", AStr(id)}}}},
+				"upd": []interface{}{"idform", kind}, "audit": true})
+		}
+		evs = append(evs, E{"op": "FindById", "c": c, "id": B(id)}, E{"op": "FindById", "c": c, "id": B(idForm(id, kind))})
 	}
 	return evs
 }
